@@ -37,6 +37,7 @@ def namespace(cls):
     ns["Rational"] = sympy.Rational
     if cls == "tensor":
         ns["Box"] = k.Box
+        ns["poly"] = lambda v: v * v + 2 * v
     return ns
 
 
@@ -152,13 +153,57 @@ def build_diagram(cls, params):
     return d, ns
 
 
+def symbols_of_box(b):
+    from discopy import cat
+    if isinstance(b, cat.Bubble):       # the symbols of a bubble are those of the diagram inside it
+        out = set()
+        for c in b.inside.boxes:
+            out |= symbols_of_box(c)
+        return out
+    if isinstance(b, cat.Sum):
+        out = set()
+        for t in b.terms:
+            for c in t.boxes:
+                out |= symbols_of_box(c)
+        return out
+    out = set()
+    data = b.data if not hasattr(b, "phase") else b.phase
+    for v in np.asarray(data, dtype=object).flatten() if data is not None else []:
+        out |= set(getattr(v, "free_symbols", set()))
+    return out
+
+
 def expected_symbols(params, ns):
     out = set()
     for expr, _ in params["layers"]:
-        b = eval(expr, ns)
-        data = b.data if not hasattr(b, "phase") else b.phase
-        for v in np.asarray(data, dtype=object).flatten() if data is not None else []:
-            out |= set(getattr(v, "free_symbols", set()))
+        out |= symbols_of_box(eval(expr, ns))
+    return out
+
+
+def check_symbols(params):
+    """Diagrams containing bubbles (and sums as boxes): the reported free symbols are exactly the
+    symbols of the boxes, those inside bubbles included; substitution must work on them too."""
+    cls = params["cls"]
+    d, ns = build_diagram(cls, params)
+    out = []
+    want = expected_symbols(params, ns)
+    if set(d.free_symbols) != want:
+        out.append((_sig("free-symbols", params), "[%s] %s: free_symbols = %s, the boxes (bubbles included) contain %s"
+                    % (cls, d, set(d.free_symbols), want)))
+        return out
+    for b in d.boxes:
+        if set(b.free_symbols) != symbols_of_box(b):
+            out.append((_sig("free-symbols-box", params), "[%s] box %s reports %s, contains %s" % (cls, b, set(b.free_symbols), symbols_of_box(b))))
+            return out
+    x = ns["x"]
+    try:
+        ds = d.subs(x, 0.5)
+    except TypeError as e:
+        # recorded finding: no diagram class can substitute into a bubble
+        out.append(("C14:subs:bubbles-cannot-be-substituted", "[%s] %s .subs(x, 0.5) raised TypeError: %s" % (cls, d, str(e)[:100])))
+        return out
+    if x in set(ds.free_symbols):
+        out.append((_sig("symbols-after", params), "[%s] %s: x still reported after substituting it" % (cls, d)))
     return out
 
 
@@ -314,7 +359,7 @@ def check_case(params):
     return out
 
 
-CASES = {k: safe("C14", f) for k, f in {"case": check_case}.items()}
+CASES = {k: safe("C14", f) for k, f in {"case": check_case, "symbols": check_symbols}.items()}
 
 
 def _worker(shard):
@@ -326,7 +371,7 @@ def _worker(shard):
         part.seen("nontrivial", repr(sorted((k, repr(v)) for k, v in params.items())))
         for s_, msg in res:
             part.violation(s_, msg, case, params)
-        if len(part.samples) < 1 and len(params["layers"]) == 2:
+        if case == "case" and len(part.samples) < 1 and len(params["layers"]) == 2:
             part.sample(params)
     return part
 
@@ -370,6 +415,16 @@ def run(ctx):
             for sub in (SUBS[0], SUBS[3], SUBS[4], SUBS[7], SUBS[8]):
                 mode = "args" if len(sub[1]) == 1 else "pairs"
                 items.append(("case", dict(cls=cls, layers=seq, subs=list(sub), mode=mode)))
+    # bubbles: symbols that occur only inside a bubble, alone and next to other boxes
+    bub = ["Box('p', Dim(2), Dim(2), [x, 1, 0, 2]).bubble(func=poly)", "Box('p', Dim(2), Dim(2), [1, y, 0, 2]).bubble(func=poly)",
+           "(Box('p', Dim(2), Dim(2), [x, 1, 0, 2]) >> Box('q', Dim(2), Dim(2), [1, 0, y, 2])).bubble(func=poly)",
+           "Box('p', Dim(2), Dim(2), [x * y, 1, 0, 2]).bubble(func=poly).bubble(func=poly)"]
+    others = ["Box('n', Dim(2), Dim(2), [1, 2j, 3, 4])", "Box('ox', Dim(2), Dim(2), [x, 1, 0, 2 * x])", "Box('oy', Dim(2), Dim(2), [y, 1, 0, y ** 2])"]
+    for b in bub:
+        items.append(("symbols", dict(cls="tensor", layers=[[b, 0]])))
+        for o in others:
+            items.append(("symbols", dict(cls="tensor", layers=[[b, 0], [o, 0]])))
+            items.append(("symbols", dict(cls="tensor", layers=[[o, 0], [b, 0]])))
     ctx.bounds.update(expressions=EXPRS, substitutions=[s[0] for s in SUBS], values=VALUES,
                       depth=2 if ctx.quick else 3)
     ctx.rule = ("every parametrised box x every substitution x every way of supplying it, and every "
